@@ -115,12 +115,18 @@ def envelope_header(attrs) -> bytes:
 
 
 def seal_envelope(payload: bytes, key: bytes, iv: bytes, key_info: str, extra_attrs: list, order: list[int], aad: bytes | None,
-                  padding: int | None = None, filler: int = 0xA5) -> tuple[bytes, dict]:
+                  padding: int | None = None, filler: int = 0xA5, fill_to: int = 0) -> tuple[bytes, dict]:
     cipher_name = "AES-256-GCM"
     base = [("vmware.iv", T_BYTES, 0, iv), ("vmware.keyInfo", T_STRING, 0, key_info), ("vmware.cipherName", T_STRING, 0, cipher_name),
             ("vmware.keyHash", T_BYTES, 0, hashlib.sha256(cipher_name.encode() + key).digest())]
     attrs = base + list(extra_attrs)
     attrs = [attrs[i] for i in order] if order else attrs
+    if fill_to:
+        # one more attribute sized so that header struct + attribute records + terminator end exactly `fill_to` bytes into the file
+        name = "vmware.filler"
+        need = fill_to - 512 - len(pack_attributes(attrs)) - (4 + len(name) + 1 + 8)
+        if need >= 0:
+            attrs = attrs + [(name, T_BYTES, 0, bytes((i * 7 + 1) & 0xFF for i in range(need)))]
     header = envelope_header(attrs)
     if padding is None:
         padding = -len(payload) % BLOCK
